@@ -193,35 +193,28 @@ Qed.
 Lemma parse_auth_confined oa host u s :
   parse_auth oa host = COk u s -> (u <> [] \/ s <> []) ->
   exists a, oa = Some a /\ cred_of a = COk u s
-            /\ (a_sa a = SAEmpty \/ (a_sa a <> SAEmpty /\ url_host (a_sa a) = Some host)).
+            /\ (sa_is_empty (a_sa a) = true \/ (sa_is_empty (a_sa a) = false /\ url_host (a_sa a) = Some host)).
 Proof.
   intros H Hne. destruct oa as [a|].
   - exists a. split; [reflexivity|]. unfold parse_auth in H.
     assert (Hemp : empty_cred = COk u s -> False).
     { intros E. inversion E; subst. destruct Hne as [N|N]; apply N; reflexivity. }
-    destruct (a_sa a) as [|h| |] eqn:Esa; simpl in H.
+    destruct (sa_is_empty (a_sa a)) eqn:Ee.
     + split; [exact H|left; reflexivity].
-    + destruct (str_eqb host h) eqn:Eh.
-      * apply str_eqb_eq in Eh. subst. split; [exact H|]. right. split; [discriminate|reflexivity].
+    + destruct (url_host (a_sa a)) as [h|] eqn:Eu; [|discriminate].
+      destruct (str_eqb host h) eqn:Eh.
+      * apply str_eqb_eq in Eh. subst. split; [exact H|]. right. split; reflexivity.
       * exfalso. apply Hemp. exact H.
-    + destruct (str_eqb host []) eqn:Eh.
-      * apply str_eqb_eq in Eh. subst. split; [exact H|]. right. split; [discriminate|reflexivity].
-      * exfalso. apply Hemp. exact H.
-    + discriminate.
   - exfalso. simpl in H. inversion H; subst. destruct Hne as [N|N]; apply N; reflexivity.
 Qed.
 
 (* a named server address whose host differs from the host asked for: nothing is offered *)
 Lemma parse_auth_mismatch a host h :
-  a_sa a <> SAEmpty -> url_host (a_sa a) = Some h -> h <> host -> parse_auth (Some a) host = empty_cred.
+  sa_is_empty (a_sa a) = false -> url_host (a_sa a) = Some h -> h <> host -> parse_auth (Some a) host = empty_cred.
 Proof.
-  intros Hn Hu Hd. unfold parse_auth. destruct (a_sa a) as [|h'| |] eqn:E; simpl in *.
-  - contradiction.
-  - inversion Hu; subst. destruct (str_eqb host h) eqn:Eh; [|reflexivity].
-    apply str_eqb_eq in Eh. subst. contradiction.
-  - inversion Hu; subst. destruct (str_eqb host []) eqn:Eh; [|reflexivity].
-    apply str_eqb_eq in Eh. subst. contradiction.
-  - discriminate.
+  intros Hn Hu Hd. unfold parse_auth. rewrite Hn, Hu.
+  destruct (str_eqb host h) eqn:Eh; [|reflexivity].
+  apply str_eqb_eq in Eh. subst. contradiction.
 Qed.
 
 (* ---------- the keychain ---------- *)
@@ -231,7 +224,7 @@ Lemma creds_confined c os host r u s :
     os = pre ++ Pull (Some r) (Some a) ok :: post
     /\ (forall o, In o post -> touches r o = false)
     /\ (c = true \/ In Connect pre)
-    /\ (a_sa a = SAEmpty \/ (a_sa a <> SAEmpty /\ url_host (a_sa a) = Some (alias host)))
+    /\ (sa_is_empty (a_sa a) = true \/ (sa_is_empty (a_sa a) = false /\ url_host (a_sa a) = Some (alias host)))
     /\ cred_of a = COk u s.
 Proof.
   unfold credentials. intros H Hne.
